@@ -1,7 +1,10 @@
 //! Transform the parsed AST into a "materialized" AST, by executing functions and
 //! replacing variables. The materialized AST is "flat", in the sense that it
 //! contains no query-specific logic.
+#[cfg(not(prqlc_verif))]
 use std::collections::HashMap;
+#[cfg(prqlc_verif)]
+use prqlc_parser::verif_hash::HashMap;
 use std::iter::zip;
 
 use enum_as_inner::EnumAsInner;
